@@ -492,10 +492,30 @@ def rule_pref(c, prog, R="C08.pref"):
     adt = prog.adts.get("rbx_binary::serializer::state::PropInfo")
     if adt is None:
         raise core.AnchorMissing("rbx_binary::serializer::state::PropInfo")
-    sets = [f for f in adt["variants"][0]["fields"] if re.search(r"(BTreeSet|HashSet|Vec|BTreeMap|IndexSet)<", f["ty"]) and re.search(r"Ustr|String|str", f["ty"])]
+    NAME = r"ustr::Ustr|alloc::string::String|&'?\w* ?str"
+
+    def elem_kind(ty):
+        """'name' (ordered by the spelling alone), 'ranked' (something sorts before the name), None (not a collection
+        of spellings)"""
+        m = re.fullmatch(r"[\w:]+<(.*)>", ty)
+        if not m or not re.match(r"(alloc::collections::btree::set::BTreeSet|std::collections::hash::set::HashSet|alloc::vec::Vec|indexmap::set::IndexSet|ustr::UstrSet)", ty):
+            return None
+        el = m.group(1).strip()
+        if re.fullmatch(NAME, el):
+            return "name"
+        if el.startswith("(") and re.search(NAME, el):
+            first = el[1:].split(",")[0].strip()
+            return "name" if re.fullmatch(NAME, first) else "ranked"
+        st = prog.adts.get(el.split("<")[0])
+        if st is not None and st.get("variants") and str(st.get("kind")).lower() == "struct":
+            flds = st["variants"][0]["fields"]
+            if any(re.fullmatch(NAME, f_["ty"]) for f_ in flds):
+                return "name" if re.fullmatch(NAME, flds[0]["ty"]) else "ranked"
+        return None
+    sets = [f for f in adt["variants"][0]["fields"] if elem_kind(f["ty"])]
     if not sets:
         raise core.AnchorMissing("PropInfo: no collection of spellings")
-    plain = [f for f in sets if re.fullmatch(r"[\w:]+<(ustr::Ustr|alloc::string::String|&'?\w* ?str)>", f["ty"])]
+    plain = [f for f in sets if elem_kind(f["ty"]) == "name"]
     inst = "serialize_properties:explicit-spelling-before-legacy"
     if len(sets) > 1 or not plain:
         # spellings are kept apart (two collections) or carry a rank next to the name: the order is no longer the
